@@ -70,9 +70,9 @@ where
            | .error e => (c2, .error e)
            | .ok res =>
              if after then
-               -- `if updated['upserted'] is not None: query = {'_id': updated['upserted']}`
+               -- `if updated['n'] and not updated['updatedExisting']: query = {'_id': upserted}`
+               -- (`upserted` is `some _` exactly when the call inserted, a null `_id` included)
                let q := match res.upserted with
-                 | some .null => query
                  | some id => Val.doc [("_id", id)]
                  | none => query
                findOneColl now c2 q proj none
@@ -96,7 +96,6 @@ where
            | .ok res =>
              if after then
                let q' := match res.upserted with
-                 | some .null => q
                  | some id => Val.doc [("_id", id)]
                  | none => q
                findOneColl now c3 q' proj none
